@@ -3,7 +3,7 @@
 P="$1"; TIER="$2"; shift 2
 cd /repo || exit 2
 if ! git diff --quiet; then echo "repo dirty"; exit 2; fi
-if ! git apply --3way "$P" 2>/dev/shm/mut-apply.log; then cat /dev/shm/mut-apply.log; git checkout -- . ; git reset -q; echo "APPLY-FAILED"; exit 3; fi
+if ! git apply --3way "$P" 2>/dev/shm/mut-apply.log; then cat /dev/shm/mut-apply.log; git reset -q; git checkout -- . ; echo "APPLY-FAILED"; exit 3; fi
 git reset -q
 for id in "$@"; do
   out=$(cd /verif && ./check.sh $id $TIER 2>&1); rc=$?
